@@ -106,6 +106,24 @@ def unit(model, sizes, ranks):
             explore(ctx, run)
             recs += settle(ctx.all_obls, mode="U")
 
+    # ---- object identity: one list object (and its rating objects) in two slots == equal separate objects
+    if len(sizes) >= 3 and sizes[0] == sizes[-1]:
+        for op in OPS[1:]:
+            ctx = Ctx("U")
+
+            def run_alias(ctx, op=op):
+                m, _ = game.mk_model(ctx, S)
+                tA = game.mk_teams(ctx, S, sizes)
+                tB = game.mk_teams(ctx, S, sizes)
+                tA[-1] = tA[0]
+                tB[-1] = [S.rating_cls(p.mu, p.sigma) for p in tB[0]]
+                ra, rb = _do(m, op, tA), _do(m, op, tB)
+                ctx.oblige(f"C14/{model}/{op}/object-identity-independent@{shape}", game.compare_outcomes(ra, rb),
+                           meta={"fn": f"{model}.{op}", "shape": shape,
+                                 "replay": lambda md: {"kind": "c14_alias", "model": model, "op": op, "game": game.enc_game(md, sizes), "params": game.enc_params(md)}})
+            explore(ctx, run_alias)
+            recs += settle(ctx.all_obls, mode="U")
+
     # ---- history independence: any first call, then op == fresh model's op
     firsts = [("rate", None, True), ("rate", True, False), ("rate", False, False), ("predict_win", None, False)]
     for op in OPS:
